@@ -51,6 +51,9 @@ type IterState struct {
 	Visited string // (Array K Bool)
 	Count   string // Idx
 	IsStr   bool
+	Start   string // has-array of the map when the range statement started
+	Shrunk  bool // a key of this map family may have been deleted during the iteration: no cardinality facts
+	Grown   bool // a key may have been added during the iteration: Go does not promise to visit it, no exhaustion fact either
 }
 
 type DeferRec struct {
@@ -214,6 +217,7 @@ type Exec struct {
 	dryAll bool
 	dryKept map[string]bool
 	dryKeptSet bool
+	dryGhosts map[string]bool
 	dryGhost bool
 	loopWrites map[*ssa.BasicBlock]*writeSet
 	fnMods map[string]*modGroup
@@ -261,8 +265,9 @@ func (x *Exec) markRef(name string, l leaf) {
 }
 
 type writeSet struct {
-	names map[string]bool
-	all   bool
+	names  map[string]bool
+	ghosts map[string]bool // ghost variables assigned by hooks inside the loop
+	all    bool
 	kept  map[string]bool // with all: arrays that every havoc-all in the loop preserves
 }
 
@@ -1161,7 +1166,21 @@ func (x *Exec) mapLookup(st *State, m Val, k string) (Val, string) {
 	return v, has
 }
 
+func (x *Exec) markIters(st *State, t types.Type, grown bool) {
+	p, _, _ := x.mapInfo(t)
+	for _, it := range st.iters {
+		q, _, _ := x.mapInfo(it.Map.T)
+		if p == q {
+			it.Shrunk = true
+			if grown {
+				it.Grown = true
+			}
+		}
+	}
+}
+
 func (x *Exec) mapUpdate(st *State, m Val, k string, v Val) {
+	x.markIters(st, m.T, true)
 	hn, hs, has := x.mapHasArr(st, m.T)
 	ln, ls, lens := x.mapLenArr(st, m.T)
 	had := sel(sel(has, m.S), k)
@@ -1179,6 +1198,7 @@ func (x *Exec) mapUpdate(st *State, m Val, k string, v Val) {
 }
 
 func (x *Exec) mapDelete(st *State, m Val, k string) {
+	x.markIters(st, m.T, false)
 	hn, hs, has := x.mapHasArr(st, m.T)
 	ln, ls, lens := x.mapLenArr(st, m.T)
 	had := sel(sel(has, m.S), k)
